@@ -1059,7 +1059,7 @@ class Interp:
             recv = self.force(self.eval(call.func.value, fr))
             valsf = self.force(vals)
             if isinstance(recv, VList) and not isinstance(recv, VTuple) and isinstance(valsf, VSeq) \
-                    and isinstance(call.func.value, (ast.Name, ast.Attribute)):
+                    and isinstance(call.func.value, (ast.Name, ast.Attribute, ast.Subscript)):
                 # a list of concrete length grows by a sequence of symbolic length: it becomes a symbolic sequence
                 ty = T("seq", [valsf.elem])
                 nv = VSeq(z3.Concat(to_z3(recv, ty), valsf.z) if recv.items else valsf.z, valsf.elem)
@@ -2235,10 +2235,12 @@ class Interp:
             et = val.kind
         elif isinstance(val, VTuple) and getattr(val, "ntname", None) in _values.NT_DEFS:
             et = f"nt[{val.ntname}]"      # [NT(e1(x), ..) for x in xs]: a namedtuple built from pure field expressions
+        elif isinstance(val, VDict):
+            et = "json"                   # [{"k": e(x), ..} for x in xs]: a dict literal with constant keys and pure values
         else:
             return None
         try:
-            vz = self.truth(val) if et == "bool" else (to_z3(val, et) if et.startswith("nt[") else val.z)
+            vz = self.truth(val) if et == "bool" else (to_z3(val, et) if et.startswith("nt[") or et == "json" else val.z)
         except Exception:
             return None
         r = z3.Const(self.ctx.namer("mapped"), z3.SeqSort(vz.sort()))
